@@ -385,6 +385,12 @@ func orcTrigger(s *orcStep, prop string) string {
 			return "attribute-edit-on-object-declared-by-dotted-or-repeated-keys"
 		}
 	}
+	// --- `key: null` statements in the source --------------------------------------------
+	if strings.Contains(s.Pre.Text, ": null") {
+		// elements declared before a `x: null` line are erased and partly resurrected by later
+		// references; the oracle's bookkeeping (ensureNode, reference lists) does not model that
+		return "source-has-null-statements"
+	}
 	// --- quoting -----------------------------------------------------------------------
 	for _, x := range k.ObjRaw {
 		if !gen.IsPlain(x) {
